@@ -239,13 +239,15 @@ where
         ZNXARI::znx_copy(res.at_mut(res_col, size - j - 1), tmp);
     }
 
-    // Propagates carry on the rest of the limbs of res
+    // Propagates carry on the rest of the limbs of res: the discarded limbs are zero,
+    // the carry ripples from limb `steps - 1` up to limb 0 (which takes the final step).
     for j in 0..steps {
-        ZNXARI::znx_zero(res.at_mut(res_col, j));
-        if j == 0 {
-            ZNXARI::znx_normalize_final_step_assign(base2k, lsh, res.at_mut(res_col, steps - j - 1), carry);
+        let limb: usize = steps - j - 1;
+        ZNXARI::znx_zero(res.at_mut(res_col, limb));
+        if limb == 0 {
+            ZNXARI::znx_normalize_final_step_assign(base2k, lsh, res.at_mut(res_col, limb), carry);
         } else {
-            ZNXARI::znx_normalize_middle_step_assign(base2k, lsh, res.at_mut(res_col, steps - j - 1), carry);
+            ZNXARI::znx_normalize_middle_step_assign(base2k, lsh, res.at_mut(res_col, limb), carry);
         }
     }
 }
